@@ -487,12 +487,11 @@ def atoms_text():
         while depth and j < len(bw):
             depth += {"(": 1, ")": -1}.get(bw[j], 0)
             j += 1
-        if "MAX_ZOOM_LEVELS" in bw[mt.end():j - 1]:
-            takes.append(bw[mt.end():j - 1])
-    if len(takes) != 2:
-        raise R.Unsupported("the two `.take(… MAX_ZOOM_LEVELS …)` of the automatic zoom levels not found")
-    for tag, t in zip(("single", "two"), takes):
-        emit(f"zl_count_{tag}", [("options_max_zooms", N), ("MAX_ZOOM_LEVELS", N)], N, lambda: (R.parse_expr(t)))
+        if "max_zooms" in bw[mt.end():j - 1]:
+            takes.append(bw[mt.end():j - 1])          # the `.take(…)` that bounds the automatic levels by max_zooms, capped or not
+    CUR_SRC[0] = None                                  # MAX_ZOOM_LEVELS stays a parameter here (its value is re-extracted into Consts.lean)
+    for i_, tag in enumerate(("single", "two")):
+        emit(f"zl_count_{tag}", [("options_max_zooms", N), ("MAX_ZOOM_LEVELS", N)], N, lambda: (R.parse_expr(takes[i_])))
     m = re.search(r"successors\(Some\(options\.initial_zoom_size\),\s*\|z\|\s*z\.checked_mul\((\d+)\)\)", bw)
     if not m:
         raise R.Unsupported("the successor rule of the automatic zoom sizes not found")
